@@ -35,8 +35,12 @@ type WCall struct {
 }
 
 type WAct struct {
-	Kind  string // now | delay | twice | unknown | never | bad | unkthen
-	Delay time.Duration
+	Kind   string // now | delay | twice | unknown | never | bad | unkthen | hold | frag
+	Delay  time.Duration
+	Pieces int  // frag: number of sub-packages (2..3; more when the body needs it)
+	Long   bool // frag: a body that does not fit into one frame
+	Mid    bool // frag: a heartbeat between the sub-packages
+	Probe  bool // a heartbeat right after the response: its reply proves that the writer has dealt with the response
 }
 
 type WScn struct {
@@ -99,6 +103,81 @@ func locBody() []byte { // 28-byte basic location information, 2024-10-01 12:00:
 	return b
 }
 
+// TSubFrame: one sub-package of a fragmented terminal message (attribute bit 13, package total and number).
+func TSubFrame(id uint16, phone string, serial, sum, no uint16, body []byte) []byte {
+	if len(body) > 1023 {
+		panic("body too long")
+	}
+	attr := uint16(len(body)) | 1<<13
+	b := []byte{byte(id >> 8), byte(id), byte(attr >> 8), byte(attr)}
+	b = append(b, bcdDigits(phone, 6)...)
+	b = append(b, byte(serial>>8), byte(serial), byte(sum>>8), byte(sum), byte(no>>8), byte(no))
+	b = append(b, body...)
+	var x byte
+	for _, v := range b {
+		x ^= v
+	}
+	return esc808(append(b, x))
+}
+
+// LongRespBody: a response body of the given type echoing a platform serial; long enough to need sub-packages
+// when long is set (0x1205: 45 resources, 0x0805: 300 multimedia ids, 0x0104: 130 DWORD parameters).
+func LongRespBody(typ, echo, cmd uint16, long bool) []byte {
+	if !long {
+		return RespBody(typ, echo, cmd)
+	}
+	switch typ {
+	case 0x1205:
+		n := 45
+		b := []byte{byte(echo >> 8), byte(echo), 0, 0, byte(n >> 8), byte(n)}
+		for i := 0; i < n; i++ {
+			item := make([]byte, 28)
+			item[0] = byte(1 + i%4)
+			copy(item[1:7], []byte{0x24, 0x10, 0x01, 0x08, byte(i%10)<<4 | byte(i%10), 0})
+			copy(item[7:13], []byte{0x24, 0x10, 0x01, 0x09, byte(i%10)<<4 | byte(i%10), 0})
+			item[21], item[22], item[23] = 0, 1, 1
+			item[27] = byte(i)
+			b = append(b, item...)
+		}
+		return b
+	case 0x0805:
+		n := 300
+		b := []byte{byte(echo >> 8), byte(echo), 0, byte(n >> 8), byte(n)}
+		for i := 0; i < n; i++ {
+			b = append(b, 0, 0, byte(i>>8), byte(i))
+		}
+		return b
+	case 0x0104:
+		n := 130
+		b := []byte{byte(echo >> 8), byte(echo), byte(n)}
+		for i := 0; i < n; i++ {
+			b = append(b, 0, 0, 0, 1, 4, 0, 0, 0, byte(i))
+		}
+		return b
+	}
+	return RespBody(typ, echo, cmd)
+}
+
+// SplitBody cuts a body into k non-empty pieces of at most 1023 bytes.
+func SplitBody(body []byte, k int) [][]byte {
+	if k > len(body) {
+		k = len(body)
+	}
+	for (len(body)+k-1)/k > 1023 {
+		k++
+	}
+	var out [][]byte
+	sz := (len(body) + k - 1) / k
+	for i := 0; i < len(body); i += sz {
+		e := i + sz
+		if e > len(body) {
+			e = len(body)
+		}
+		out = append(out, body[i:e])
+	}
+	return out
+}
+
 const farFuture = int64(1) << 40
 
 type wrun struct {
@@ -113,7 +192,9 @@ type wrun struct {
 	frames   []PFrame           // every platform frame received during the recording
 	sentResp map[uint16][]int64 // echo -> times a parsable response echoing it was written
 	beatTags []uint16
-	replied  []uint16 // tags of the 0x8001 replies received, in order
+	beatSent map[uint16]int64 // tag -> time the heartbeat had been written
+	replyAt  map[uint16]int64 // tag -> time its 0x8001 was received
+	replied  []uint16         // tags of the 0x8001 replies received, in order
 	heldCmd  []PFrame
 	nreplies int
 	todo     int // scripted terminal actions not yet performed (first heartbeat, beats, delayed responses)
@@ -151,6 +232,40 @@ func (r *wrun) sendBeat(loc bool) {
 	s := r.sendMsg(id, body, func(serial uint16) string { return fmt.Sprintf("o.%d.1", serial) })
 	if !r.closed {
 		r.beatTags = append(r.beatTags, s)
+		r.beatSent[s] = r.us()
+	}
+}
+
+// sendFrag sends the response to (cmd, echo) in sub-packages: every packet is a message of its own for the
+// server (TFrag in the model); with the last one the reassembler emits the merged response.
+func (r *wrun) sendFrag(cmd, echo uint16, a WAct) {
+	if r.closed {
+		return
+	}
+	typ := respTypeOf[cmd]
+	if typ == 0 {
+		typ = 0x0001
+	}
+	pieces := SplitBody(LongRespBody(typ, echo, cmd, a.Long), a.Pieces)
+	for i, pc := range pieces {
+		serial := r.t.NextSerial()
+		lo := r.us()
+		_, err := r.t.Conn.Write(TSubFrame(typ, r.t.Phone, serial, uint16(len(pieces)), uint16(i+1), pc))
+		hi := r.us()
+		if err != nil {
+			return
+		}
+		r.T = append(r.T, fmt.Sprintf("T/s:f/%d/%d", lo, hi))
+		if i == len(pieces)-1 {
+			if typ == 0x1003 {
+				r.T = append(r.T, fmt.Sprintf("T/s:a/%d/%d", lo, hi))
+			} else {
+				r.T = append(r.T, fmt.Sprintf("T/s:r.%d.%d/%d/%d", typ, echo, lo, hi))
+				r.sentResp[echo] = append(r.sentResp[echo], hi)
+			}
+		} else if a.Mid {
+			r.sendBeat(false)
+		}
 	}
 }
 
@@ -215,6 +330,7 @@ func (r *wrun) handle(f PFrame) {
 		tag := int(f.Body[0])<<8 | int(f.Body[1])
 		r.F = append(r.F, fmt.Sprintf("F/R%d.%d/0/%d", f.Serial, tag, t))
 		r.replied = append(r.replied, uint16(tag))
+		r.replyAt[uint16(tag)] = t
 		r.nreplies++
 		if r.sc.CloseReplies > 0 && r.nreplies == r.sc.CloseReplies {
 			r.doClose()
@@ -233,11 +349,24 @@ func (r *wrun) handle(f PFrame) {
 		r.todo++
 		time.AfterFunc(d, func() { r.mu.Lock(); defer r.mu.Unlock(); fn(); r.todo-- })
 	}
+	probe := func() {
+		if act.Probe {
+			r.sendBeat(false)
+		}
+	}
 	switch act.Kind {
 	case "now":
 		r.sendResp(cmd, echo, false)
+		probe()
 	case "delay":
-		later(act.Delay, func() { r.sendResp(cmd, echo, false) })
+		later(act.Delay, func() { r.sendResp(cmd, echo, false); probe() })
+	case "frag":
+		if act.Delay > 0 {
+			later(act.Delay, func() { r.sendFrag(cmd, echo, act); probe() })
+		} else {
+			r.sendFrag(cmd, echo, act)
+			probe()
+		}
 	case "twice":
 		r.sendResp(cmd, echo, false)
 		r.sendResp(cmd, echo, false)
@@ -295,7 +424,7 @@ func RunW(s *Srv, sc *WScn) *WHist {
 		h.Viol = append(h.Viol, WViol{Sig: "dial", What: "cannot connect to the server", Observed: err.Error(), Required: "an accepting server"})
 		return h
 	}
-	r := &wrun{s: s, sc: sc, t: t, sentResp: map[uint16][]int64{}, syncTag: -1, syncCh: make(chan struct{})}
+	r := &wrun{s: s, sc: sc, t: t, sentResp: map[uint16][]int64{}, beatSent: map[uint16]int64{}, replyAt: map[uint16]int64{}, syncTag: -1, syncCh: make(chan struct{})}
 	defer t.Close()
 	// ---- before the recording: join, serial pre-advance
 	nframes := 0
@@ -523,7 +652,18 @@ func RunW(s *Srv, sc *WScn) *WHist {
 		}
 		h.Items = append(h.Items, fmt.Sprintf("K%02d/c:%d:%d/%d/%d", n, c.Cmd, tmo, c.Inv, hi))
 		if c.Done {
-			h.Items = append(h.Items, fmt.Sprintf("K%02d/ret:%s/%d/%d", n, resTok(c.Res), c.Inv, hi))
+			lo := c.Inv
+			if c.Res.Kind == "timeout" && c.Timeout >= 0 {
+				// a timer sleeps for the whole duration after the write, which is after the invocation
+				d := c.Timeout
+				if d == 0 {
+					d = 3 * time.Second
+				}
+				if lo += d.Microseconds() - 1000; lo > hi {
+					lo = hi
+				}
+			}
+			h.Items = append(h.Items, fmt.Sprintf("K%02d/ret:%s/%d/%d", n, resTok(c.Res), lo, hi))
 		}
 		h.Kinds[c.Res.Kind]++
 	}
@@ -605,6 +745,20 @@ func (r *wrun) check(h *WHist) {
 					fmt.Sprintf("caller %d: %04x echoing %d", i, c.Res.RespID, c.Res.Echo), "only responses the terminal sent")
 			}
 		case "timeout":
+			// the terminal answered with the right serial, and a heartbeat it sent AFTER that answer was
+			// replied to well before the timer could expire: msgChan is FIFO, so the writer had taken the
+			// response while the command was still outstanding, and did not complete it
+			for _, ts := range r.sentResp[c.Res.PSeq] {
+				for tag, tb := range r.beatSent {
+					if ra, ok := r.replyAt[tag]; ok && tb >= ts && c.Timeout >= 0 && ra < c.Inv+lim.Microseconds()-20000 {
+						if f, ok := bySerial[c.Res.PSeq]; ok && f.ID == c.Cmd && string(f.Body) == string(c.Body) {
+							r.violate("response-ignored", "a caller timed out although the terminal's response echoing its serial had been processed while its command was outstanding",
+								fmt.Sprintf("caller %d cmd %04x serial %d: response written at %d us, later heartbeat %d answered at %d us, call invoked at %d us with timeout %v", i, c.Cmd, c.Res.PSeq, ts, tag, ra, c.Inv, lim),
+								"the response")
+						}
+					}
+				}
+			}
 			if c.Timeout < 0 {
 				r.violate("timeout-without-timer", "a call without timeout returned a timeout", fmt.Sprintf("caller %d", i), "response or ErrNotExistKey")
 			} else if c.Res.Dur < lim-2*time.Millisecond {
@@ -634,7 +788,7 @@ func (r *wrun) check(h *WHist) {
 
 // ---------------------------------------------------------------- scenario generators
 
-var WKinds = []string{"default0", "flood-close", "burst", "order", "late", "dup", "unknown", "bad", "never", "mixed", "attr", "notmo", "prejoin", "wrap",
+var WKinds = []string{"frag", "default0", "flood-close", "burst", "order", "late", "dup", "unknown", "bad", "never", "mixed", "attr", "notmo", "prejoin", "wrap",
 	"close-idle", "close-queued", "close-outstanding", "close-afterresp", "close-timer", "close-early", "rst-outstanding"}
 
 func ms(n int) time.Duration { return time.Duration(n) * time.Millisecond }
@@ -669,6 +823,20 @@ func GenW(kind string, seed int64) *WScn {
 			sc.Acts = append(sc.Acts, WAct{Kind: "delay", Delay: ms(rng.Intn(40))})
 		}
 		beats(rng.Intn(3), 40)
+	case "frag": // responses that arrive in 2-3 sub-packages (long 0x1205 / 0x0805 / 0x0104 or short bodies cut up),
+		// other commands answered normally around them; a heartbeat after each answer
+		fc := []uint16{0x9205, 0x8801, 0x8104, 0x8103, 0x9206, 0x9003}
+		nf := rng.Intn(k)
+		for i := 0; i < k; i++ {
+			c := mk(i, ms(400))
+			a := WAct{Kind: "delay", Delay: ms(rng.Intn(40)), Probe: true}
+			if i == nf || rng.Intn(3) == 0 {
+				c.Cmd = fc[rng.Intn(len(fc))]
+				a = WAct{Kind: "frag", Delay: ms(rng.Intn(30)), Pieces: 2 + rng.Intn(2), Long: rng.Intn(2) == 0, Mid: rng.Intn(2) == 0, Probe: true}
+			}
+			sc.Calls = append(sc.Calls, c)
+			sc.Acts = append(sc.Acts, a)
+		}
 	case "default0": // OverTimeDuration 0 = "use the 3 s default": a silent terminal, the call must time out after 3 s
 		k = 1 + rng.Intn(2)
 		for i := 0; i < k; i++ {
